@@ -33,6 +33,8 @@ def run(rep, idx, tier):
     forwarded_bits(rep, idx)
     window_patterns(rep, idx)
     glue.shadow_hash(rep, idx, "C01.8")
+    from .c19 import identity_comparisons
+    identity_comparisons(rep, idx, rule="C01.1", classes=["Multiplexer", "Decoder", "WishboneCSRBridge", "MemoryMap"])
 
 
 # ---- C01.1 / C01.2 -------------------------------------------------------------------------------------
